@@ -260,10 +260,74 @@ pub fn run_decode(a: &Args, out: &mut Out) {
 }
 
 // ------------------------------------------------------------------------------------------------ affine (C09)
+/// coordinates offered to Affine*::new (unless only the decoders are under test) and to the raw / uncompressed decoders
+fn offer<G: Grp>(out: &mut Out, x: &[u8], y: &[u8], kind: &str, decoders_only: bool) {
+    if !decoders_only {
+        out.call("g.affine_new", json!({"G": G::NAME, "x": b(x), "y": b(y), "kind": kind}), || {
+            outs! {"out" => Value::from(if G::affine_new(x, y).is_some() { "ok" } else { "err" })}
+        });
+    }
+    let mut raw = x.to_vec();
+    raw.extend_from_slice(y);
+    let mut unc = vec![4u8];
+    unc.extend_from_slice(&raw);
+    decode_ev::<G>(out, "raw", &raw);
+    decode_ev::<G>(out, "unc", &unc);
+}
+/// NEAR-curve points: the two sides of the curve equation differ by a delta confined to one limb of the Montgomery representation
+/// (of one component).  G1: (x, sqrt(x^3 + 5 + d)).  G2: a point of the order-r subgroup rescaled to (s^2 X, s^3 Y) with
+/// s^6 = 1 + d/b, which lies on y^2 = x^3 + b + d and still has order r there (the group formulas never use b) - only an exact
+/// comparison of ALL limbs of both components rejects it - and a plain near-twist point (sqrt(x^3 + b + d)).
+fn near_curve(rng: &mut StdRng, pool: &Pool, out: &mut Out, decoders_only: bool, budget: usize) {
+    let ds = limb_deltas();
+    let mut n1 = 0;
+    for (i, d) in ds.iter().enumerate() {
+        if n1 >= 4 * budget { break; }
+        let x = Fq::from_slice(&rand_bytes(rng, 64)).unwrap();
+        if let Some(y) = (x * x * x + G1::b() + *d).sqrt() {
+            n1 += 1;
+            let y = if i % 2 == 0 { y } else { -y };
+            offer::<G1>(out, &x.to_slice(), &y.to_slice(), "near-curve", decoders_only);
+        }
+    }
+    let binv = fq2_inv(G2::b()).unwrap();
+    let (mut n2, mut n3) = (0usize, 0);
+    for (i, d) in ds.iter().enumerate() {
+        for comp in 0..2 {
+            let d2 = if comp == 0 { Fq2::new(*d, Fq::zero()) } else { Fq2::new(Fq::zero(), *d) };
+            {
+                if let Some(s) = fq2_sixth_root(Fq2::one() + d2 * binv) {
+                    n2 += 1;
+                    let a = AffineG2::from_jacobian(valid_point::<G2>(rng, pool)).unwrap();
+                    let (s2, s3) = (s * s, s * s * s);
+                    let (x, y) = ((a.x() * s2).to_slice(), (a.y() * s3).to_slice());
+                    offer::<G2>(out, &x, &y, "near-curve-order-r", decoders_only);
+                    let mut c = vec![2 + (y[63] & 1)];
+                    c.extend_from_slice(&x);
+                    decode_ev::<G2>(out, "cmp", &c);
+                }
+            }
+            if n3 < budget / 2 && (i + comp) % 5 == 0 {
+                let x = rand_fq2_nonzero(rng);
+                if let Some(y) = (x * x * x + G2::b() + d2).sqrt() {
+                    n3 += 1;
+                    offer::<G2>(out, &x.to_slice(), &y.to_slice(), "near-twist", decoders_only);
+                }
+            }
+        }
+    }
+}
+
 pub fn run_affine(a: &Args, out: &mut Out) {
+    let decoders_only = a.focus == "decoders";
+    {
+        let poolr = load_pool(&a.pool, "Fr");
+        let mut rng = rng_from(a.seed, "near");
+        near_curve(&mut rng, &poolr, out, decoders_only, if a.tier == "thorough" { 40 } else { 12 });
+    }
     // G1 on / off-curve pairs whose x-coordinate is a Montgomery-boundary value of the TLC-generated pool (zero limbs, all-ones
     // limbs, half-limb boundaries ...): AffineG1::new squares the caller's coordinates directly
-    {
+    if !decoders_only {
         let pool = load_pool(&a.pool, "Fq");
         let mut rng = rng_from(a.seed, "affine");
         let n = pool.vals.len();
@@ -296,9 +360,11 @@ pub fn run_affine(a: &Args, out: &mut Out) {
     for p in v["g2"].as_array().unwrap() {
         let (x, y) = (unb(&p["x"]), unb(&p["y"]));
         let kind = p["kind"].as_str().unwrap();
+        if !decoders_only {
         out.call("g.affine_new", json!({"G": "G2", "x": b(&x), "y": b(&y), "kind": kind}), || {
             outs! {"out" => Value::from(if G2::affine_new(&x, &y).is_some() { "ok" } else { "err" })}
         });
+        }
         // the same point offered to the three G2 decoders
         let mut raw = x.clone();
         raw.extend_from_slice(&y);
@@ -313,9 +379,11 @@ pub fn run_affine(a: &Args, out: &mut Out) {
     for p in v["g1"].as_array().unwrap() {
         let (x, y) = (unb(&p["x"]), unb(&p["y"]));
         let kind = p["kind"].as_str().unwrap();
+        if !decoders_only {
         out.call("g.affine_new", json!({"G": "G1", "x": b(&x), "y": b(&y), "kind": kind}), || {
             outs! {"out" => Value::from(if G1::affine_new(&x, &y).is_some() { "ok" } else { "err" })}
         });
+        }
         let mut raw = x.clone();
         raw.extend_from_slice(&y);
         decode_ev::<G1>(out, "raw", &raw);
